@@ -59,6 +59,68 @@ theorem foldl_update_wellFormed (chunks : List (List UInt8)) : ∀ p : Sha, Well
 theorem reusable_wellFormed (p : Sha) (h : Reusable p) : WellFormed p :=
   ⟨h.2.2.1, by rw [h.1]; exact specH0_length, h.2.2.2⟩
 
+theorem padLoop_wellFormed (cur : Nat) (p : Sha) (h : WellFormed p) :
+    (padLoop cur p).1 = 56 ∧ WellFormed (padLoop cur p).2 := by
+  induction cur, p using padLoop.induct with
+  | case1 p => rw [padLoop]; simp [h]
+  | case2 cur p hne c q ih =>
+    rw [padLoop]
+    simp only [hne, if_false]
+    apply ih
+    have hc : c < 64 := Nat.mod_lt _ (by omega)
+    have hq : WellFormed q := by
+      show WellFormed (if c = 0 then writeByteBlock p else p)
+      split
+      · rw [writeByteBlock_eq transformOK p h.2.1 h.1]; exact ⟨h.1, compress_length _ _, h.2.2⟩
+      · exact h
+    exact ⟨by rw [wr_length _ _ _ (by rw [hq.1]; exact hc)]; exact hq.1, hq.2.1, hq.2.2⟩
+
+theorem lenLoop_length : ∀ (n cur : Nat) (l : UInt64) (buf : List UInt8), cur + n ≤ buf.length →
+    (lenLoop n cur l buf).length = buf.length := by
+  intro n
+  induction n with
+  | zero => intro cur l buf _; rfl
+  | succ n ih =>
+    intro cur l buf h
+    simp only [lenLoop]
+    rw [ih _ _ _ (by rw [wr_length _ _ _ (by omega)]; omega), wr_length _ _ _ (by omega)]
+
+theorem finalize_snd (p : Sha) (r : Nat × Sha)
+    (hr : padLoop (bufferPos p + 1) { p with buffer := Sha256.wr p.buffer (bufferPos p) 0x80 } = r) :
+    (finalize p).2 =
+      reset { writeByteBlock { r.2 with buffer := lenLoop 8 r.1 (p.count <<< 3) r.2.buffer } with
+        ok := (writeByteBlock { r.2 with buffer := lenLoop 8 r.1 (p.count <<< 3) r.2.buffer }).ok &&
+          (List.range 8).all fun i => Sha256.inb (writeByteBlock { r.2 with buffer := lenLoop 8 r.1 (p.count <<< 3) r.2.buffer }).state i } := by
+  subst hr; rfl
+
+/-- `finalize` leaves a reusable hasher whatever was fed before (no length bound) -/
+theorem finalize_reusable (p : Sha) (h : WellFormed p) : Reusable (finalize p).2 := by
+  have hc : bufferPos p < 64 := by rw [bufferPos_eq]; omega
+  have h1 : WellFormed { p with buffer := Sha256.wr p.buffer (bufferPos p) 0x80 } :=
+    ⟨by rw [wr_length _ _ _ (by rw [h.1]; exact hc)]; exact h.1, h.2.1, h.2.2⟩
+  obtain ⟨hr1, hr2⟩ := padLoop_wellFormed (bufferPos p + 1) _ h1
+  obtain ⟨r, hr⟩ : ∃ r, padLoop (bufferPos p + 1) { p with buffer := Sha256.wr p.buffer (bufferPos p) 0x80 } = r := ⟨_, rfl⟩
+  rw [hr] at hr1 hr2
+  rw [finalize_snd p r hr]
+  obtain ⟨n, q⟩ := r
+  simp only at hr1 hr2
+  subst hr1
+  have hl : (lenLoop 8 56 (p.count <<< 3) q.buffer).length = 64 := by
+    rw [lenLoop_length _ _ _ _ (by rw [hr2.1]; decide), hr2.1]
+  simp only []
+  obtain ⟨X, hX⟩ : ∃ X : Sha, X = { q with buffer := lenLoop 8 56 (p.count <<< 3) q.buffer } := ⟨_, rfl⟩
+  rw [← hX]
+  have e1 : X.state = q.state := by rw [hX]
+  have e2 : X.buffer = lenLoop 8 56 (p.count <<< 3) q.buffer := by rw [hX]
+  have e3 : X.ok = q.ok := by rw [hX]
+  have hXs : X.state.length = 8 := by rw [e1]; exact hr2.2.1
+  have hXb : X.buffer.length = 64 := by rw [e2]; exact hl
+  have hXo : X.ok = true := by rw [e3]; exact hr2.2.2
+  rw [writeByteBlock_eq transformOK X hXs hXb]
+  refine ⟨genH0_eq, genCount0_eq, hXb, ?_⟩
+  simp only [reset, Bool.and_eq_true]
+  exact ⟨hXo, stateReads_ok _ _⟩
+
 theorem all_inb {α : Type} (l : List α) (n : Nat) (h : l.length = n) :
     ((List.range n).all fun i => Sha256.inb l i) = true := by
   simp only [List.all_eq_true, List.mem_range, Sha256.inb, decide_eq_true_eq]
